@@ -7,7 +7,7 @@ R120 == <<<<0,1,0>>,<<0,0,1>>,<<1,0,0>>>>
 (* molecule on the binned grid: voxel 0 samples binned index j0 (so q2 = 2*j0 + s - 1) *)
 CasesDef ==
   {c \in [n : Shapes, b : 1..6, s : Boxes, j0 : {<<0, 0, 0>>, <<0, 1, 0>>, <<1, 0, 1>>, <<1, 1, 1>>}, R : {MId, R90z, R120},
-          order : {0, 1, 3}, kind : {"single", "batch"}, lazy : BOOLEAN, mix : BOOLEAN, compute : BOOLEAN, q2 : {<<0,0,0>>}] :
+          order : {0, 1, 3}, kind : {"single", "batch"}, lazy : BOOLEAN, mix : BOOLEAN, compute : BOOLEAN, corner : {FALSE}, q2 : {<<0,0,0>>}] :
      \* mix: a batch whose first tomogram is a numpy array and whose second one is lazy (dask)
      /\ (c.mix => (c.kind = "batch" /\ c.lazy))
      /\ (c.R # MId => c.s = <<3,3,3>>)
@@ -19,6 +19,14 @@ CasesDef ==
      /\ (c.R # MId => c.order # 0)
      /\ (c.compute => c.lazy)
      /\ \A a \in 1..3 : c.j0[a] + c.s[a] <= c.n[a] \div c.b + 1}      \* at most one voxel hangs over the edge
+(* elongated boxes under quarter turns: the rotated box reaches further along an axis than the box itself does, so the region read
+   from the image must be the one of a corner-safe loader (corner_safe = TRUE is a property of the loader that binning keeps);
+   centre (3,3,3), reach 2 voxels, order 1 (whose plain crop margin is 1 voxel) *)
+CornerCases ==
+  {c \in [n : {<<14, 14, 15>>}, b : {1, 2}, s : {<<1,1,5>>, <<5,1,1>>, <<1,5,1>>}, j0 : {<<3,3,1>>, <<1,3,3>>, <<3,1,3>>}, R : {R90z, R120},
+          order : {1}, kind : {"single", "batch"}, lazy : BOOLEAN, mix : {FALSE}, compute : BOOLEAN, corner : {TRUE}, q2 : {<<0,0,0>>}] :
+     /\ (c.compute => c.lazy)
+     /\ \A a \in 1..3 : 2 * c.j0[a] + c.s[a] - 1 = 6}
 WithQ(c) == [c EXCEPT !.q2 = [a \in 1..3 |-> 2 * c.j0[a] + c.s[a] - 1]]
-CasesQ == {WithQ(c) : c \in CasesDef}
+CasesQ == {WithQ(c) : c \in CasesDef \cup CornerCases}
 =============================================================================
